@@ -153,6 +153,8 @@ func checkC16(c *Case, st *Stats) string {
 			{"below-object-filter-..", "$[?(@.zz9t == 1)].." + strings.TrimPrefix(sp.sel, "."), regions, occRegions},
 			{"below-object-filter", "$[?(@.zz9t == 2)].zz9in" + sp.sel, regions, []interface{}{want}},
 			{"below-wildcard", "$.*" + sp.sel, members, []interface{}{want, 3000.0}},
+			{"root-member-inside-a-nested-filter", "$.zz9items[?(@.tags[?(@ == $" + sp.sel + ")])].id", map[string]interface{}{key: want, "zz9items": []interface{}{
+				map[string]interface{}{"id": 1.0, "tags": []interface{}{"no", want}, key: "decoy"}, map[string]interface{}{"id": 2.0, "tags": []interface{}{"no"}}, map[string]interface{}{"id": 3.0, "tags": []interface{}{want}}}}, []interface{}{1.0, 3.0}},
 			{"after-non-ascii-dot-name", "$.é" + sp.sel, map[string]interface{}{"é": obj, "e": obj3}, []interface{}{want}},
 			{"after-non-ascii-bracket-names", "$['日本']['😀']" + sp.sel, map[string]interface{}{"日本": map[string]interface{}{"😀": obj}}, []interface{}{want}},
 			{"below-wildcard-filter-on-objects", "$.*[?(@" + sp.sel + ")]", map[string]interface{}{"zz9a": map[string]interface{}{"p": obj, "q": obj2}, "zz9b": map[string]interface{}{"p": obj3}}, []interface{}{obj, obj3}},
